@@ -2,7 +2,7 @@
 # extract.sh <crate_dir> <out.json> [dev|release] [crate_name]
 # Runs the a5facts driver over the lib target of <crate_dir> with a fresh target dir.
 set -euo pipefail
-SRC="$1"; OUT="$2"; PROFILE="${3:-dev}"; CRATE="${4:-a5}"
+SRC="$1"; OUT="$(realpath -m "$2")"; PROFILE="${3:-dev}"; CRATE="${4:-a5}"
 HERE="$(cd "$(dirname "$0")/.." && pwd)"
 DRV="$HERE/driver/target/release/a5facts"
 [ -x "$DRV" ] || { echo "driver not built: run ./setup.sh" >&2; exit 2; }
